@@ -28,6 +28,11 @@ def tus(have):
         "xf3": ("xf.cpp", d("XF_GROUP=3")),
         "xf4": ("xf.cpp", d("XF_GROUP=4")),
         "xf5": ("xf.cpp", d("XF_GROUP=5") + (["HAVE_ANYCC"] if have["ANYCC"] else [])),
+        # two transformations in a row, grouped by the first one
+        "xf6": ("xf.cpp", d("XF_GROUP=6") + (["HAVE_TRANSPOSED"] if have["TRANSPOSED"] else []) + (["HAVE_NTH"] if have["NTH"] else [])),
+        "xf7": ("xf.cpp", d("XF_GROUP=7") + (["HAVE_TRANSPOSED"] if have["TRANSPOSED"] else []) + (["HAVE_NTH"] if have["NTH"] else [])),
+        "xf8": ("xf.cpp", d("XF_GROUP=8") + (["HAVE_TRANSPOSED"] if have["TRANSPOSED"] else []) + (["HAVE_NTH"] if have["NTH"] else [])),
+        "xf9": ("xf.cpp", d("XF_GROUP=9") + (["HAVE_TRANSPOSED"] if have["TRANSPOSED"] else []) + (["HAVE_NTH"] if have["NTH"] else [])),
         "copy_a": ("copy.cpp", d("BIN_MODE_MASK=3")), "copy_b": ("copy.cpp", d("BIN_MODE_MASK=12")),
         "equal_a": ("equal.cpp", d("BIN_MODE_MASK=3")), "equal_b": ("equal.cpp", d("BIN_MODE_MASK=12")),
         "ccopy_a": ("ccopy.cpp", d("CC_GROUP=1", "BIN_MODE_MASK=3")), "ccopy_b": ("ccopy.cpp", d("CC_GROUP=1", "BIN_MODE_MASK=12")),
@@ -45,6 +50,8 @@ def route(op):
         if o in ("id",) + tuple(GEOM): return "xf1"
         if o in ("sub", "sub5", "subs", "subs2", "nth"): return "xf2"
         return {"cc": "xf3", "ccx": "xf4", "anycc": "xf5", "anyccx": "xf5"}.get(o)
+    if w[0] == "xf2":
+        return {"flipud": "xf6", "fliplr": "xf6", "rot90cw": "xf7", "rot90ccw": "xf7", "rot180": "xf8", "transpose": "xf8", "sub": "xf9", "subs": "xf9"}.get(w[5])
     if w[0] in ("copy", "equal", "ccopy", "ccopyx", "rs"):
         return w[0] + ("_a" if w[1] in ("aa", "ka") else "_b")
     if w[0] == "rsz": return "rsz"
@@ -84,6 +91,8 @@ def gen_ops(ctx):
         out = [(r.range(lo, hi), r.range(lo, hi)) for _ in range(n)]
         return out
     reps = 4 if th else 1
+    # ---- witnesses of the three fixed findings (known_findings.json), always run first
+    ops += ["xf rgb8 3 2 1 transpose", "xf rgb8 3 2 1 nth 1", "xf rgb8 2 1 1 anycc g8", "xf rgb8 2 1 1 anyccx g8"]
     # ---- transformations: every alternative x every transformation
     for T in L7:
         for (w, h) in [(0, 0), (0, 3), (4, 0)] + shapes(1 + reps): ops.append("xf %s %d %d %d id" % (T, w, h, seed()))
@@ -106,6 +115,33 @@ def gen_ops(ctx):
     for T in L6:
         for n in range(NC[T]):
             for (w, h) in shapes(reps + 1): ops.append("xf %s %d %d %d nth %d" % (T, w, h, seed(), n))
+    # ---- two lifted transformations in a row (the second one runs on the mapped type list of the first)
+    def geom(w, h):
+        """a random in-contract geometric op on a w x h view: (text, result dims)"""
+        k = r.below(8)
+        if k < 6:
+            g = GEOM[k]; return g, ((h, w) if g in ("transpose", "rot90cw", "rot90ccw") else (w, h))
+        if k == 6:
+            x0, y0 = r.range(0, w - 1), r.range(0, h - 1); ww, hh = r.range(1, w - x0), r.range(1, h - y0)
+            return "sub %d %d %d %d" % (x0, y0, ww, hh), (ww, hh)
+        sx, sy = r.range(1, 3), r.range(1, 3)
+        return "subs %d %d" % (sx, sy), ((w + sx - 1) // sx, (h + sy - 1) // sy)
+    def first_ops(w, h):
+        x0, y0 = r.range(0, w - 1), r.range(0, h - 1); ww, hh = r.range(1, w - x0), r.range(1, h - y0)
+        sx, sy = r.range(1, 3), r.range(1, 3)
+        return [(g, ((h, w) if g in ("transpose", "rot90cw", "rot90ccw") else (w, h))) for g in GEOM] + \
+               [("sub %d %d %d %d" % (x0, y0, ww, hh), (ww, hh)), ("subs %d %d" % (sx, sy), ((w + sx - 1) // sx, (h + sy - 1) // sy))]
+    for T in L7:
+        for _ in range(reps):
+            (w, h) = (r.range(2, hi), r.range(2, hi))
+            for o1, (w1, h1) in first_ops(w, h):
+                for g in GEOM: ops.append("xf2 %s %d %d %d %s then %s" % (T, w, h, seed(), o1, g))
+                for _ in range(2):
+                    o2, _d = geom(w1, h1)
+                    if o2.startswith("sub"): ops.append("xf2 %s %d %d %d %s then %s" % (T, w, h, seed(), o1, o2))
+                if T != "g1": ops.append("xf2 %s %d %d %d %s then nth %d" % (T, w, h, seed(), o1, r.below(NC[T])))
+                ops.append("xf2 %s %d %d %d %s then cc g8" % (T, w, h, seed(), o1))
+                ops.append("xf2 %s %d %d %d %s then ccx rgb8" % (T, w, h, seed(), o1))
     # ---- binary algorithms: every ordered pair x every overload shape
     for T1 in L7:
         for T2 in L7:
@@ -168,6 +204,7 @@ def nontrivial(op):
     """more than one pixel is involved, or the op exercises the bad_cast path"""
     w = op.split()
     if w[0] == "xf": return int(w[2]) * int(w[3]) >= 2 and w[5] != "id"
+    if w[0] == "xf2": return True
     if w[0] in ("copy", "equal", "ccopy", "ccopyx", "rs", "rsz"): return int(w[6]) * int(w[7]) >= 2 or not compat(w[2], w[3])
     if w[0] == "fill": return int(w[3]) * int(w[4]) >= 2 or not compat(w[1], w[2])
     if w[0] == "foreach": return int(w[2]) * int(w[3]) >= 2
@@ -207,13 +244,14 @@ def run(ctx, ops=None):
         impl, model = vlib.correspond(ctx, binary, "drv_C14", g, label=name)
         samples.append({"op": g[0][:160], "impl": impl[0][:300], "model": model[0][:300]})
         for o, a in zip(g, impl):
-            w = o.split(); k = w[0] + (":" + w[5] if w[0] == "xf" else (":" + w[1] if w[0] == "img" else ""))
+            w = o.split(); k = w[0] + (":" + w[5] if w[0] in ("xf", "xf2") else (":" + w[1] if w[0] == "img" else ""))
             by_kind[k] = by_kind.get(k, 0) + 1
             if "err:bad_cast" in a: ctx.cov["bad_cast_observed"] = ctx.cov.get("bad_cast_observed", 0) + 1
             if "err:no-compile" in a: ctx.cov["no_compile_observed"] = ctx.cov.get("no_compile_observed", 0) + 1
     distinct = len({o for o in ops if nontrivial(o)})
     return vlib.finish(ctx, "proof", obligations, discharged,
-        rule="op lines: every alternative of the type list x every lifted transformation (several shapes, write-through probe), every ORDERED pair of "
+        rule="op lines: every alternative of the type list x every lifted transformation (several shapes, write-through probe) and every pair of a geometric "
+             "transformation followed by a second lifted transformation (run on the mapped type list), every ORDERED pair of "
              "alternatives x every overload shape (any/any, const any/any, any/concrete, concrete/any) of copy_pixels, equal_pixels, copy_and_convert_pixels "
              "(default and user converter), resample_pixels and resize_view, every alternative x every fill value type, for_each_pixel, and copy / assignment / "
              "equality / recreate of any_image and any_image_view; shapes and contents seeded by VERIF_SEED. non-trivial = more than one pixel involved or the "
